@@ -4,7 +4,11 @@ import KrroodVerif.Model.Predicate
 Driver for C12. One case:
 
 `(call <fn|method|pred> (params (a) (b 8) …) (pos <arg>…) (kw (name <arg>)…) (doms (0 1 2 3) (1 4) …) (pre 0 …)
-  (neg T|F) (body <salt> <modulus>) …)` with `<arg>` = `(l <value>)` or `(v <variable id>)`.
+  (neg T|F) (body <salt> <modulus>) (knobs (is_expensive T) …) (hist ((oid state)…) …) …)` with `<arg>` =
+`(l <value>)`, `(v <variable id>)` or `(a <accessor> <variable id>)` (`x.att`, `x.get()`, `x.items[0]`, …: the value
+passed is `state + 100·accessor`). Candidate objects are identified by a number (printed in `rows`); their state —
+what accessors and the body read, printed in `log` — starts equal to it and is overwritten by each world of `hist`
+before the same query object is evaluated again; the evaluations are printed joined by ` ;; `.
 
 `params` are the parameters the user can bind (default value after the name). For `method` the underlying function
 has `self` in front and the wrapper receives the receiver (value 0) as first positional argument; the driver adds
@@ -24,7 +28,8 @@ def codeQuirks : Quirks := { symFnIgnoresFirst := false, childVarsIndependent :=
 
 def parseArg : Sexp → Option Arg
   | .list [.atom "l", v] => v.asNat?.map Arg.lit
-  | .list [.atom "v", i] => i.asNat?.map Arg.var
+  | .list [.atom "v", i] => i.asNat?.map (fun i => Arg.var i 0)
+  | .list [.atom "a", k, i] => do pure (Arg.var (← i.asNat?) (← k.asNat?))
   | _ => none
 
 def parseParam : Sexp → Option Param
@@ -45,7 +50,8 @@ def parseDom : Sexp → Option (Nat × List Nat)
 
 def showArg : Arg → String
   | .lit v => toString v
-  | .var i => s!"?{i}"
+  | .var i 0 => s!"?{i}"
+  | .var i k => s!"?{i}.{k}"
 
 def showTuple (xs : List String) : String := "(" ++ ",".intercalate xs ++ ")"
 
@@ -65,6 +71,27 @@ def mkBody (salt m : Nat) : List Nat → Nat := fun t =>
     | _, [] => 0
     | j, v :: r => (j + 1) * v + go (j + 1) r
   (salt + go 0 t) % m
+
+/-- `((oid state) …)`: the states of the mutated candidates, every other candidate keeps state = identity -/
+def parseWorld : Sexp → Option World
+  | .list ps => do
+    let ps ← ps.mapM (fun p => match p with
+      | .list [o, st] => do pure ((← o.asNat?), (← st.asNat?))
+      | _ => none)
+    pure (fun o => (ps.lookup o).getD o)
+  | _ => none
+
+def parseKnob : Sexp → Option (String × Bool)
+  | .list [.atom n, v] => v.asBool?.map (fun v => (n, v))
+  | _ => none
+
+/-- all evaluations of one query object, or the single outcome if the call did not produce a condition -/
+def showHistory (body : List Nat → Nat) (os : List Outcome) : String :=
+  match os with
+  | [] => "none"
+  | o :: r => match o with
+    | .symbolic _ => " ;; ".intercalate ((o :: r).map (showOutcome body))
+    | _ => showOutcome body o
 
 def run (s : Sexp) : String :=
   match s with
@@ -86,16 +113,20 @@ def run (s : Sexp) : String :=
         | "method" => some ⟨.symFn, ⟨"self", none⟩ :: params, .lit 0 :: pos, kw⟩
         | "pred" => some ⟨.pred, params, pos, kw⟩
         | _ => none
+      let knobs ← ((Sexp.field? items "knobs").getD []).mapM parseKnob
+      let hist ← ((Sexp.field? items "hist").getD []).mapM parseWorld
       let body := mkBody salt m
-      let x : Experiment := ⟨call, fun i => (doms.lookup i).getD [], pre, neg, body⟩
-      let sh := showOutcome body
+      let x : Experiment := { call := call, doms := fun i => (doms.lookup i).getD [], pre := pre, neg := neg, body := body }
+      -- the query object is built once and evaluated in the initial world, then in every world of `hist`
+      let worlds : List World := id :: hist
+      let sh := showHistory body
       let trig := (if codeQuirks.symFnIgnoresFirst && trigPositional call then ["F-C12-1"] else [])
         ++ (if codeQuirks.childVarsIndependent && trigShared x then ["F-C12-2"] else [])
-      pure (s!"model={sh (Pred.run codeQuirks x)}"
-        ++ s!"\tmodel_fixed={sh (Pred.run { codeQuirks with symFnIgnoresFirst := false } x)}"
-        ++ s!"\tmodel_f2={sh (Pred.run { codeQuirks with childVarsIndependent := false } x)}"
-        ++ s!"\tmodel_f12={sh (Pred.run Quirks.none x)}"
-        ++ s!"\tspec={sh (Pred.spec x)}\ttrig={",".intercalate trig}")
+      pure (s!"model={sh (runHistory codeQuirks knobs x [] worlds)}"
+        ++ s!"\tmodel_fixed={sh (runHistory { codeQuirks with symFnIgnoresFirst := false } knobs x [] worlds)}"
+        ++ s!"\tmodel_f2={sh (runHistory { codeQuirks with childVarsIndependent := false } knobs x [] worlds)}"
+        ++ s!"\tmodel_f12={sh (runHistory Quirks.none knobs x [] worlds)}"
+        ++ s!"\tspec={sh (specHistory x worlds)}\ttrig={",".intercalate trig}")
     r.getD "error=bad-case"
   | _ => "error=bad-case"
 
